@@ -15,7 +15,7 @@ from typing import Any, Dict, List, Tuple
 
 from .. import core
 from ..core import Check, untext
-from ..pathcommon import DocTable, compare_eval, run_universes
+from ..pathcommon import DocTable, compare_eval, random_cases, replay_random, run_universes
 
 CFG = """CONSTANTS Universe = "{universe}"
 SPECIFICATION Spec
@@ -47,6 +47,15 @@ def run(chk: Check, tier: str, seed: int) -> None:
             chk.nontrivial.add(json.dumps(rec["q"], sort_keys=True))
         for sig, case, what in res:
             chk.violation(sig, case, what)
+    rnd = random_cases(chk, filters=True, num=4000 if tier == "quick" else 160000, seed=seed, depth=3, segs=2 if tier == "quick" else 3)
+    rnd = [x for x in rnd if '"filter"' in json.dumps(x["q"])]
+    for rec, res in zip(rnd, core.pmap(replay_random, rnd)):
+        chk.traces += 4
+        if rec["res"]:
+            chk.nontrivial.add(json.dumps((rec["q"], rec["doc"]), sort_keys=True))
+        for sig, case, what in res:
+            chk.violation(sig, case, what)
+    chk.extra["random_document_query_pairs"] = len(rnd)
     for rec in recs[0:1] + recs[200:202] + recs[-2:]:
         chk.sample({"query": untext(rec["texts"][0]), "selected_in_doc0": len(rec["res"][0])})
     chk.exhaustive = True
@@ -57,6 +66,11 @@ def run(chk: Check, tier: str, seed: int) -> None:
 
 
 def replay_file(case: Dict[str, Any]) -> int:
+    if "doc" in case["case"].get("tagged", {}):  # a random (document, query) pair drawn by MC_PathRandom
+        res = replay_random(case["case"]["tagged"])
+        for sig, c, what in res:
+            print("DIVERGENCE", sig, c["query"], c["expected"], c["observed"])
+        return 1 if res else 0
     rec = case["case"]["tagged"]
     chk = Check("C02", "quick", 0)
     docs, _ = run_universes(chk, [rec["universe"]], module="MC_Filter", cfg=CFG)
